@@ -94,6 +94,7 @@ class SmtLibExecutionCache(object):
 
     def __init__(self, env: Environment):
         self.substitute = env.substituter.substitute
+        self.get_type = env.stc.get_type
         self.keys: Dict[str, List[Union[str, Callable, PySMTType, FNode, _TypeDecl]]] = {}
         self.definitions: Dict[str, Tuple[List[Union[Any, FNode]], Union[PySMTType, FNode, PartialType, str]]] = {}
         self.annotations = Annotations()
@@ -115,7 +116,16 @@ class SmtLibExecutionCache(object):
 
     def _define_adapter(self, formal_parameters: List[FNode], expression: FNode) -> Callable:
         def res(*actual_parameters):
-            assert len(formal_parameters) == len(actual_parameters)
+            if len(formal_parameters) != len(actual_parameters):
+                raise PysmtSyntaxError("A defined function is applied to %d "
+                                       "arguments instead of %d" %
+                                       (len(actual_parameters),
+                                        len(formal_parameters)))
+            for formal, actual in zip(formal_parameters, actual_parameters):
+                if self.get_type(actual) != formal.symbol_type():
+                    raise PysmtTypeError("Argument '%s' of a defined function "
+                                         "is not of sort %s" %
+                                         (actual, formal.symbol_type()))
             submap = dict(zip(formal_parameters, actual_parameters))
             return self.substitute(expression, submap)
         return res
@@ -649,7 +659,9 @@ class SmtLibParser(object):
     def _division(self, left: FNode, right: FNode) -> FNode:
         """Utility function that builds a division"""
         mgr = self.env.formula_manager
-        if left.is_constant() and right.is_constant() and not right.is_zero():
+        if (left.is_int_constant() or left.is_real_constant()) and \
+           (right.is_int_constant() or right.is_real_constant()) and \
+           not right.is_zero():
             return mgr.Real(Fraction(left.constant_value()) /
                             Fraction(right.constant_value()))
         return self.Div(left, right)
